@@ -211,6 +211,10 @@ func c17Body(c *run.Ctx) {
 			if choose.Chance(c.Ch, "leave", 40) {
 				leave = []string{pid}
 			}
+			if choose.Chance(c.Ch, "update.empty", 10) {
+				jp, leave = nil, nil
+				labels["update_with_nothing_to_do"] = true
+			}
 			var ma, mb map[string]int
 			ma, ea = mA.UpdateTablePlayers(id, jp, leave)
 			eb = viaEngine(func(te pokertable.TableEngine) error { var e error; mb, e = te.UpdateTablePlayers(jp, leave); return e })
@@ -236,7 +240,17 @@ func c17Body(c *run.Ctx) {
 			groups["player-table"] = true
 		case 11:
 			name = "PlayersLeave"
-			ea, eb = mA.PlayersLeave(id, []string{pid}), viaEngine(func(te pokertable.TableEngine) error { return te.PlayersLeave([]string{pid}) })
+			ids := []string{pid}
+			if choose.Chance(c.Ch, "leave.empty", 20) {
+				// nobody to remove ("everybody who busted leaves" after a hand without busts): the
+				// engine still publishes an update; an unknown table is still not found
+				ids = []string{}
+				if choose.Chance(c.Ch, "leave.nil", 50) {
+					ids = nil
+				}
+				labels["players_leave_empty_list"] = true
+			}
+			ea, eb = mA.PlayersLeave(id, ids), viaEngine(func(te pokertable.TableEngine) error { return te.PlayersLeave(ids) })
 			groups["player-table"] = true
 		case 12:
 			name = "PlayerExtendActionDeadline"
